@@ -204,8 +204,14 @@ def work_reuse(chunk):
     acc = fw.Acc()
     K1, K2 = float(cm.ENV['C17']['K1']), float(cm.ENV['C17']['K2'])
     for fname, n, si in chunk:
-        f = jets.make_fun(FUNCS[fname][0])
+        f0 = jets.make_fun(FUNCS[fname][0])
         seq = REUSE_SEQS[si]
+        if si % 2 == 0:
+            def f(z, f0=f0):
+                # a function written with np.atleast_1d: a scalar argument comes back as a length-1 array
+                return np.atleast_1d(f0(z))
+        else:
+            f = f0
         obj = ndf.Taylor(f, n=n, full_output=True)
         for idx, z0 in enumerate(seq):
             jc = dict(kind='reuse', f=fname, n=n, seq=si, call=idx)
